@@ -608,4 +608,101 @@ def wid8(ctx, c):
     c.ok(NV + ".__init__", "%d constructor evaluations" % n, where, nontrivial=False)
 
 
-RULES = {"WID-8": wid8, "WID-6": wid6, "WID-1": wid1, "WID-3": wid3, "WID-5": wid5, "LAY-5": lay5}
+def fold_method(ctx, cls, name, selfenv, args=(), kwargs=None, depth=0):
+    """fold <cls>.<name>(*args) over a constant object state (selfenv: 'self.x' -> value); calls of other methods of the object
+    are folded the same way (inherited lookup)"""
+    from ..consteval import fold_body
+    if depth > 6:
+        raise NotConst("method recursion")
+    repo = ctx.repo
+    fn = repo.method(cls, name)
+    params = [p for p in fn.params if p != "self"]
+    env = dict(ctx.env)
+    env.update(selfenv)
+    defaults = fn.node.args.defaults
+    for p_, d_ in zip(params[len(params) - len(defaults):], defaults):
+        env[p_] = fold(d_, ctx.env)
+    for p_, a in zip(params, args):
+        env[p_] = a
+    env.update(kwargs or {})
+
+    class Calls(dict):
+        def __contains__(self, key):
+            return isinstance(key, str) and key.startswith("self.") and key.count(".") == 1 and repo.lookup(repo.cls(cls), key[5:]) is not None
+
+        def __getitem__(self, key):
+            return lambda *a, **kw: fold_method(ctx, cls, key[5:], selfenv, a, kw, depth + 1)
+
+        def __bool__(self):
+            return True
+    return fold_body(body_without_doc(fn.node), env, calls=Calls())
+
+
+def wid9(ctx, c):
+    """WID-9 rendering of a NumericValue folded for boundary values x width hints: hex_len, hex, byte_len, high_byte, low_byte and the
+    two's complement of negatives equal the reference for every value that fits its width."""
+    from ..consteval import Raised
+    repo = ctx.repo
+    f = repo.method(NV, "hex", inherited=False)
+    where = repo.loc(f, f.node)
+
+    def even_len(n):
+        k = len("%X" % n)
+        return k + (k % 2)
+    cases = []
+    for n in (0, 5, 0x12, 0x7F, 0x80, 0xFF, 0x100, 0x123, 0x1234, 0x8000, 0xFFFF):
+        for hint in (None, 2, 4):
+            if hint == 2 and n > 0xFF:
+                continue
+            w = hint or even_len(n)
+            st = {"self.int": n, "self.size_hint": hint, "self.negative": False}
+            cases.append((st, "hex_len", (), w))
+            cases.append((st, "hex", (), "%0*X" % (w, n)))
+            cases.append((st, "byte_len", (), w // 2))
+            cases.append((st, "high_byte", (), (n >> 8) & 0xFF))
+            cases.append((st, "low_byte", (), n & 0xFF))
+            if n <= 0xFF:
+                cases.append((st, "hex", (2,), "%02X" % n))
+            cases.append((st, "hex", (4,), "%04X" % n))
+    for n in (1, 5, 0x7F, 0x80):
+        for hint in (None, 2):
+            st = {"self.int": n, "self.size_hint": hint, "self.negative": True}
+            cases.append((st, "hex", (2,), "%02X" % (0x100 - n)))
+            cases.append((st, "hex", (), "%02X" % (0x100 - n)))
+            cases.append((st, "get_negative", (), 0x100 - n))
+    for n in (1, 5, 0x80, 0x81, 0x100, 0x8000):
+        st = {"self.int": n, "self.size_hint": 4, "self.negative": True}
+        cases.append((st, "hex", (), "%04X" % (0x10000 - n)))
+        cases.append((st, "hex", (4,), "%04X" % (0x10000 - n)))
+        st = {"self.int": n, "self.size_hint": None, "self.negative": True}
+        cases.append((st, "hex", (4,), "%04X" % (0x10000 - n)))
+    n_ok = 0
+    bad = {}
+    undec = {}
+    for st, meth, args, want in cases:
+        desc = "%s%s%s" % ("-" if st["self.negative"] else "", "$%X" % st["self.int"], "" if st["self.size_hint"] is None else " (width hint %d)" % st["self.size_hint"])
+        try:
+            got = fold_method(ctx, NV, meth, st, args)
+        except Raised as e:
+            got = "raises %s" % e.name
+        except NotConst as e:
+            undec.setdefault(meth, "%s for %s" % (e, desc))
+            continue
+        if got == want:
+            n_ok += 1
+        else:
+            bad.setdefault(meth, (desc, args, got, want))
+    for meth in ("hex_len", "hex", "byte_len", "high_byte", "low_byte", "get_negative"):
+        if meth in bad:
+            desc, args, got, want = bad[meth]
+            c.finding("%s.%s" % (NV, meth), "%s(%s) of %s is %r" % (meth, ", ".join(map(str, args)), desc, got),
+                      "%s.%s(%s) of the value %s gives %r; the reference rendering is %r (even number of hex digits, the hinted width, two's complement of negatives)"
+                      % (NV, meth, ", ".join(map(str, args)), desc, got, want), where)
+        elif meth in undec:
+            c.undecided("%s.%s" % (NV, meth), "method-not-foldable", undec[meth], where)
+        else:
+            c.ok("%s.%s" % (NV, meth), "reference rendering on every boundary case", where)
+    c.ok(NV, "%d renderings folded" % n_ok, where, nontrivial=False)
+
+
+RULES = {"WID-9": wid9, "WID-8": wid8, "WID-6": wid6, "WID-1": wid1, "WID-3": wid3, "WID-5": wid5, "LAY-5": lay5}
